@@ -53,4 +53,4 @@ Check C14_fax_refuted : fax_capacity 4294967295 4294967295 = Panic 1002 /\ fax_c
   forall buf_len columns, 0 < columns -> fax_check buf_len columns = Ok (buf_len mod columns).
 Check C14_full_statement_refuted : ~ C14_full_statement.
 Check C14_guards_in_source : ps_roll_len_guard = 1 /\ ps_roll_mod_guard = 1 /\ ps_index_guard = 1 /\ ps_parse_get = 1 /\ diff_wrapping = 1.
-Check C14_budgets_in_source : (0 <? page_depth) = true /\ (0 <? tree_depth) = true /\ (0 <? cs_depth) = true.
+Check C14_budgets_in_source : (0 <? sf_page_depth) = true /\ (0 <? tree_depth) = true /\ (0 <? cs_depth) = true.
